@@ -36,6 +36,16 @@ def run(tier, seed, replay):
     rep.crash_violations(crashes)
     keys, hdrs = pm.load_meta(outs)
     merge(rep, vf.pmap(pm.judge, [(p, "C09", keys, hdrs) for p in outs]), "C09")
+    if not replay:
+        # the same matrix once more with every fresh heap block pre-filled with 0x01 (ASan's malloc_fill_byte; the default run fills with 0xbe):
+        # a size or flag that is read before it was written then looks like a plausible positive number instead of a negative one, so a
+        # floor decision taken on it shows up as a key below the floor being used (error-state items are offered to setkey in this matrix)
+        fill = {"ASAN_OPTIONS": vf.SAN_ENV["ASAN_OPTIONS"] + ":malloc_fill_byte=1:max_malloc_fill_size=1048576"}
+        outs2, crashes2 = vf.run_shards(b, args, vf.NCPU, rd, env=fill, tag="f", timeout=3000)
+        rep.crash_violations(crashes2, prefix="fill01:")
+        before = dict(rep.counters)
+        merge(rep, vf.pmap(pm.judge, [(p, "C09", keys, hdrs) for p in outs2]), "C09")
+        rep.count("cells_repeated_with_heap_fill_0x01", rep.counters.get("verify", 0) - before.get("verify", 0))
     c = rep.counters
     if not replay:
         vf.need(rep, c.get("at_floor_expected_accept", 0) > 100, "too few at-floor verify cells")
